@@ -186,12 +186,16 @@ class GenericSystemRegistry(
         if system is None:
             system = self._default_system_name
 
-        # The cache is only done for check_nonmult=True and the current system.
-        if (
+        # The cache is only done for check_nonmult=True and the current system,
+        # and only describes the plain unit table: while a context overlays
+        # redefined units on it, the cached factors do not apply (and factors
+        # computed now must not be kept for later).
+        use_cache = (
             check_nonmult
             and system == self._default_system_name
-            and input_units in self._base_units_cache
-        ):
+            and len(getattr(self._units, "maps", ())) <= 1
+        )
+        if use_cache and input_units in self._base_units_cache:
             return self._base_units_cache[input_units]
 
         factor, units = self.get_root_units(input_units, check_nonmult)
@@ -217,7 +221,7 @@ class GenericSystemRegistry(
 
         base_factor = self.convert(factor, units, destination_units)
 
-        if check_nonmult:
+        if use_cache:
             self._base_units_cache[input_units] = base_factor, destination_units
 
         return base_factor, destination_units
